@@ -14,10 +14,6 @@ Definition dv (z : Z) : val := if z =? NULLC then None else Some z.
 Definition dr (l : list Z) : row := map dv l.
 Definition drs (l : list (list Z)) : list row := map dr l.
 
-Definition mk_schema (n : nat) (nn : list bool) (pk : option (list nat)) (uq : list (list nat))
-           (cs : list pred) : schema :=
-  {| s_ncols := n; s_notnull := nn; s_pk := pk; s_uniqs := uq; s_checks_enf := cs; s_checks_decl := cs |}.
-
 (** observed table: rows, pk map, unique maps, append mode, user indexes (name, data) *)
 Record otable := {
   o_rows : list (list Z);
